@@ -53,11 +53,11 @@ class Check(object):
             if i not in self.assumptions:
                 self.assumptions.append(i)
 
-    def fallback(self, name, fn, bound):
+    def fallback(self, name, fn, bound, always=False):
         """fn() -> dict(reproduced=bool, ...): bounded search on the real code
         (never counted as proved); run when some obligation is undecided, and
         always in the thorough tier."""
-        self.fallbacks.append((name, fn, bound))
+        self.fallbacks.append((name, fn, bound, always))
 
     def replayer(self, prefix, fn):
         self.replayers[prefix] = fn
@@ -72,67 +72,53 @@ class Check(object):
             except Undecided as u:
                 self.undecided.append('%s: %s' % (name, u))
             except Exception:
-                self.undecided.append('%s: engine error: %s' % (
-                    name, traceback.format_exc(limit=8)))
+                tb = traceback.format_exc().splitlines()
+                self.undecided.append('%s: engine error: %s\n%s' % (
+                    name, tb[-1], '\n'.join(tb[-14:])))
             self.paths += ex.paths
             self.feas_time += ex.feas_time
+            if os.environ.get('PYVC_DEBUG'):
+                print('  script %-60s paths=%d obligations=%d %.1fs' % (
+                    name, ex.paths, len(ex.obligations), time.time() - self.t0))
             for ob in ex.obligations:
                 ob.info.setdefault('script', name)
                 bucket.append(ob)
 
     def run(self):
-        obs = list(self.extra)
-        self._explore(self.scripts, obs)
-        # de-duplicate identical VCs (same name and same formula text)
-        seen = {}
-        uniq = []
-        for ob in obs:
-            key = (ob.name, hash(tuple(f.sexpr() for f in ob.pc)),
-                   hash(tuple(f.sexpr() for f in ob.hyps)),
-                   z3.simplify(ob.goal).sexpr()
-                   if not isinstance(ob.goal, bool) else str(ob.goal))
-            if key in seen:
-                continue
-            seen[key] = ob
-            uniq.append(ob)
-        self.results = solve.discharge(uniq, self.timeout,
-                                       both=(self.tier == 'thorough'))
-        # vacuity guard: for every distinct hypothesis set of a T/C/G
-        # obligation, `False` must not be derivable
-        self.canary_results = []
-        cans = {}
-        for ob in uniq:
-            if ob.kind not in ('T', 'C', 'G'):
-                continue
-            key = (hash(tuple(f.sexpr() for f in ob.pc)),
-                   hash(tuple(f.sexpr() for f in ob.hyps)))
-            if key not in cans:
-                cans[key] = Obligation('vacuity(%s)' % ob.name, 'canary',
-                                       ob.pc, ob.hyps, z3.BoolVal(False),
-                                       ob.path, {'for': ob.name})
-        rs = solve.discharge(list(cans.values()), 4, ground=False)
-        for r in rs:
-            vac = (r.status == 'proved')
-            self.canary_results.append((r.ob.name, not vac, 1))
-            if vac:
-                # an infeasible path is legitimate when its own obligation is
-                # an exception exit proved impossible; record, do not fail
-                self.notes.append('hypotheses of %s are contradictory (path '
-                                  'infeasible under the quantified '
-                                  'hypotheses)' % r.ob.info['for'])
-        # explicit canaries: each must NOT be provable
-        for name, fn in self.canaries:
-            bucket = []
-            self._explore([(name, fn)], bucket)
-            rs = solve.discharge(bucket, self.timeout)
-            bad = [r for r in rs if r.ob.kind == 'canary' and r.status == 'proved']
-            n_can = sum(1 for r in rs if r.ob.kind == 'canary')
-            self.canary_results.append((name, not bad and n_can > 0, n_can))
-            if bad or n_can == 0:
-                self.undecided.append(
-                    'canary %s: a deliberately false postcondition was proved '
-                    '(VC vacuous) or not generated' % name)
+        """Scripts are explored and their obligations discharged in worker
+        processes (one script per task, fork start method so that closures
+        and imported repo modules are shared)."""
+        import multiprocessing
+        global _CURRENT
+        _CURRENT = self
+        tasks = [('script', i) for i in range(len(self.scripts))] + \
+            [('canary', i) for i in range(len(self.canaries))]
+        results = []
+        if self.extra:
+            self._absorb(_discharge_bucket(self, list(self.extra), 'lemmas'))
+        procs = int(os.environ.get('PYVC_PROCS', '0')) or min(
+            16, os.cpu_count() or 4)
+        if len(tasks) <= 1 or procs == 1:
+            outs = [_worker(t) for t in tasks]
+        else:
+            ctx = multiprocessing.get_context('fork')
+            with ctx.Pool(min(procs, len(tasks))) as pool:
+                outs = pool.map(_worker, tasks, chunksize=1)
+        for o in outs:
+            self._absorb(o)
         return self.finish()
+
+    def _absorb(self, o):
+        self.results.extend(o['results'])
+        self.undecided.extend(o['undecided'])
+        self.paths += o['paths']
+        self.feas_time += o['feas_time']
+        self.notes.extend(o['notes'])
+        if not hasattr(self, 'canary_results'):
+            self.canary_results = []
+        self.canary_results.extend(o['canaries'])
+        for k, v in o.get('files', {}).items():
+            source.files_read[k] = v
 
     # -------------------------------------------------------------- verdict
     def finish(self):
@@ -177,8 +163,10 @@ class Check(object):
                 self.prop, path, '' if reproduced else ' no-failing-input-found'))
             exit_code = 1
         incomplete = bool(unknown or aux_failed or self.undecided)
-        if exit_code == 0 and (incomplete or self.tier == 'thorough'):
-            for name, fn, bound in self.fallbacks:
+        if exit_code == 0:
+            for name, fn, bound, always in self.fallbacks:
+                if not (always or incomplete or self.tier == 'thorough'):
+                    continue
                 t1 = time.time()
                 try:
                     out = fn()
@@ -188,7 +176,8 @@ class Check(object):
                 rec = {'name': name, 'bound': bound, 'level': 'bounded',
                        'seconds': round(time.time() - t1, 1),
                        'result': _jsonable(out),
-                       'why': 'proof incomplete' if incomplete else 'thorough tier'}
+                       'why': 'proof incomplete' if incomplete else
+                              ('every run' if always else 'thorough tier')}
                 self.bounded.append(rec)
                 if out.get('reproduced'):
                     os.makedirs(os.path.join(VERIF, 'replays'), exist_ok=True)
@@ -294,8 +283,9 @@ class Check(object):
             'violations': getattr(self, 'n_violation_lines', len(violations)),
             'assumptions': self.assumptions,
             'coverage': {
-                'obligations': n,
+                'obligations': n - len(known_hits),
                 'discharged': len(proved),
+                'obligations_refuted_by_known_findings': len(known_hits),
                 'checker_cmd': 'pyvc (AST symbolic executor over /repo '
                                'sources) + z3 %s / cvc5 1.0.3'
                                % z3.get_version_string(),
@@ -330,6 +320,188 @@ class Check(object):
             json.dump(ev, f, indent=1, default=str)
 
 
+_CURRENT = None
+
+
+class _Ob(object):
+    """Picklable summary of an obligation (z3 terms dropped)."""
+    __slots__ = ('name', 'kind', 'info', 'goal_text', 'npc', 'nhyps')
+
+    def __init__(self, ob):
+        self.name = ob.name
+        self.kind = ob.kind
+        self.info = _jsonable({k: v for k, v in ob.info.items()
+                               if k != 'probes'})
+        self.goal_text = str(ob.goal)[:400]
+        self.npc = len(ob.pc)
+        self.nhyps = len(ob.hyps)
+
+    # attributes read by finish() / write_evidence()
+    @property
+    def goal(self):
+        return self.goal_text
+
+    @property
+    def pc(self):
+        return [None] * self.npc
+
+    @property
+    def hyps(self):
+        return [None] * self.nhyps
+
+
+class _Res(object):
+    __slots__ = ('ob', 'status', 'backend', 'seconds', 'model', 'reason')
+
+    def __init__(self, r):
+        self.ob = _Ob(r.ob)
+        self.status = r.status
+        self.backend = r.backend
+        self.seconds = r.seconds
+        self.model = r.model
+        self.reason = r.reason
+
+
+_sym_cache = {}
+
+
+def _symbols(t):
+    key = t.get_id()
+    if key in _sym_cache:
+        return _sym_cache[key]
+    out = set()
+    seen = set()
+    stack = [t]
+    while stack:
+        x = stack.pop()
+        i = x.get_id()
+        if i in seen:
+            continue
+        seen.add(i)
+        if z3.is_quantifier(x):
+            stack.append(x.body())
+            continue
+        if z3.is_app(x):
+            d = x.decl()
+            if d.kind() == z3.Z3_OP_UNINTERPRETED:
+                out.add(d.name())
+            stack.extend(x.children())
+    _sym_cache[key] = out
+    return out
+
+
+def _slice(ob):
+    """Cone of influence: keep the path-condition conjuncts connected (through
+    shared uninterpreted symbols) to the goal or to each other.  Dropping
+    hypotheses only weakens what is assumed: sound."""
+    if isinstance(ob.goal, bool) or len(ob.pc) < 4:
+        return ob
+    rel = set(_symbols(ob.goal))
+    if z3.is_false(z3.simplify(ob.goal)):
+        return ob                       # infeasibility arguments need it all
+    pcs = [(f, _symbols(f)) for f in ob.pc]
+    keep = [False] * len(pcs)
+    changed = True
+    while changed:
+        changed = False
+        for i, (f, sy) in enumerate(pcs):
+            if not keep[i] and (sy & rel):
+                keep[i] = True
+                rel |= sy
+                changed = True
+    if all(keep):
+        return ob
+    return Obligation(ob.name, ob.kind, [f for (f, _), k in zip(pcs, keep) if k],
+                      ob.hyps, ob.goal, ob.path, ob.info)
+
+
+def _dedupe(obs):
+    # (cone-of-influence slicing was tried and dropped: facts reach the goal
+    # through the quantified hypotheses, so syntactic slicing loses proofs)
+    seen = {}
+    uniq = []
+    for ob in obs:
+        key = (ob.name, hash(tuple(f.sexpr() for f in ob.pc)),
+               hash(tuple(f.sexpr() for f in ob.hyps)),
+               z3.simplify(ob.goal).sexpr()
+               if not isinstance(ob.goal, bool) else str(ob.goal))
+        if key in seen:
+            continue
+        seen[key] = ob
+        uniq.append(ob)
+    return uniq
+
+
+def _discharge_bucket(chk, obs, label, is_canary_script=False):
+    out = {'results': [], 'undecided': [], 'paths': 0, 'feas_time': 0.0,
+           'notes': [], 'canaries': [], 'files': dict(source.files_read)}
+    uniq = _dedupe(obs)
+    rs = solve.discharge(uniq, chk.timeout, procs=1,
+                         both=(chk.tier == 'thorough'))
+    if is_canary_script:
+        bad = [r for r in rs if r.ob.kind == 'canary' and r.status == 'proved']
+        n_can = sum(1 for r in rs if r.ob.kind == 'canary')
+        out['canaries'].append((label, not bad and n_can > 0, n_can))
+        if bad or n_can == 0:
+            out['undecided'].append(
+                'canary %s: a deliberately false postcondition was proved '
+                '(VC vacuous) or not generated' % label)
+        return out
+    out['results'] = [_Res(r) for r in rs]
+    # vacuity guard: `False` must not follow from the hypotheses of a T/C/G
+    cans = {}
+    for ob in uniq:
+        if ob.kind not in ('T', 'C', 'G'):
+            continue
+        # consistency of the hypotheses (contracts, invariants, axioms) on
+        # their own: an infeasible *path* is legitimate, contradictory
+        # hypotheses are not
+        key = hash(tuple(f.sexpr() for f in ob.hyps))
+        if key not in cans and ob.hyps:
+            cans[key] = Obligation('vacuity(%s)' % ob.name, 'canary', [],
+                                   ob.hyps, z3.BoolVal(False), ob.path,
+                                   {'for': ob.name})
+    limit = 6
+    vs = sorted(cans.values(), key=lambda o: -len(o.hyps))[:limit]
+    for r in solve.discharge(vs, 2, procs=1, ground=False):
+        vac = (r.status == 'proved')
+        out['canaries'].append((r.ob.name, not vac, 1))
+        if vac:
+            out['undecided'].append('hypotheses of %s are contradictory: the '
+                                    'contracts it uses are inconsistent'
+                                    % r.ob.info['for'])
+    return out
+
+
+def _worker(task):
+    kind, idx = task
+    chk = _CURRENT
+    name, fn = (chk.scripts if kind == 'script' else chk.canaries)[idx]
+    ex = Explorer()
+    ex.check_name = name
+    und = []
+    t0 = time.time()
+    try:
+        ex.explore(fn)
+    except Undecided as u:
+        und.append('%s: %s' % (name, u))
+    except Exception:
+        tb = traceback.format_exc().splitlines()
+        und.append('%s: engine error: %s\n%s' % (name, tb[-1],
+                                                 '\n'.join(tb[-14:])))
+    for ob in ex.obligations:
+        ob.info.setdefault('script', name)
+    out = _discharge_bucket(chk, ex.obligations, name,
+                            is_canary_script=(kind == 'canary'))
+    out['undecided'] = und + out['undecided']
+    out['paths'] = ex.paths
+    out['feas_time'] = ex.feas_time
+    if os.environ.get('PYVC_DEBUG'):
+        print('  script %-55s paths=%d obligations=%d %.1fs' % (
+            name, ex.paths, len(ex.obligations), time.time() - t0))
+    return out
+
+
 def _jsonable(x):
     try:
         json.dumps(x)
@@ -360,8 +532,8 @@ def match_known(known, r):
         for pat in kf.get('obligations', []):
             if r.ob.name == pat or (pat.endswith('*') and
                                     r.ob.name.startswith(pat[:-1])):
-                sig = kf.get('signature')
-                if sig is None or sig == r.ob.info.get('signature'):
+                sigs = kf.get('signatures')
+                if sigs is None or r.ob.info.get('signature') in sigs:
                     return kf
     return None
 
